@@ -1,106 +1,543 @@
 /-
-  C12 — `to_doc_build`: building the definitions the printer writes (`schemaToDoc`) gives the schema back.
-  Member level, for members without default values (defaults: `default_roundtrip`).
+  C12 — `print_build_roundtrip`: building the document the schema printer denotes (`schemaToDoc`) gives the schema
+  back, for every schema description satisfying the explicit, decidable well-formedness predicate `PrintBuildWF`.
+  Part 1: values — the literal written for a default value is read back, over the printed document's own
+  environment (`docEnv`), as the same value.
 -/
 import PyGqlModel.SdlPrint
 import PyGqlModel.Props.C11_merge
+import Std.Data.String.ToInt
 
 set_option linter.unusedVariables false
 set_option linter.unusedSimpArgs false
+set_option linter.unnecessarySimpa false
 
 namespace PyGql.Props.C12
 open PyGql PyGql.Sdl PyGql.SdlPrint PyGql.Props.C11
 
-/-- an argument / input field without a default value, of a known type -/
-def PlainArg (env : Env) (a : ArgD) : Prop :=
-  a.hasDefault = false ∧ a.default = .null ∧ env.resolves a.type.base = true ∧ a.pythonName = a.name
+/-- what the builder sees when it reads the printed document: the printed definitions, by name -/
+def docEnv (s : SchemaD) : Env := Env.of (s.types.map (typeToDef s))
 
-theorem arg_to_doc_build (s : SchemaD) (env : Env) (a : ArgD) (h : PlainArg env a) : buildArgument env (argToDef s a) = .ok a := by
-  obtain ⟨h1, h2, h3, h4⟩ := h
-  cases a
-  simp only [] at h1 h2 h3 h4
-  subst h1 h2 h4
-  simp [buildArgument, argToDef, checkRef, h3, bind, Except.bind, pure, Except.pure]
+theorem docEnv_findAdditional (s : SchemaD) (n : String) : (docEnv s).findAdditional n = none := rfl
 
-theorem mapM_to_doc {α β} (g : β → α) (f : α → R β) : ∀ (l : List β), (∀ x ∈ l, f (g x) = .ok x) → (l.map g).mapM f = .ok l := by
-  intro l
+theorem docEnv_findDef (s : SchemaD) (n : String) : (docEnv s).findDef n = (s.findType n).map (typeToDef s) := by
+  simp only [docEnv, Env.of, SchemaD.findType]
+  induction s.types with
+  | nil => rfl
+  | cons t ts ih =>
+    simp only [List.map_cons, List.find?_cons]
+    have : (typeToDef s t).name = t.name := rfl
+    rw [this]
+    cases (t.name == n) <;> simp [ih]
+
+/-! ### named exclusions (findings that the round trip does not survive) -/
+
+/-- **NoH8 / Float**: the float with repr `r` is finite and prints to a literal that denotes it (`-0.0` prints as `0`) -/
+def floatOK (r : String) : Bool :=
+  finiteRepr r && (match floatLit r with | .float _ f => f == r | .int _ f => f == r | _ => false)
+
+/-- **NoH3**: a custom-scalar string default that Python's `float()` cannot parse (the printer would re-guess it as a
+    number): conservatively, a string without digits that is not a spelling of inf/nan — or a plain integer text -/
+def notFloatLike (x : String) : Bool :=
+  let cs := ((x.toList.dropWhile isWs).reverse.dropWhile isWs).reverse.map Char.toLower
+  isIntText x || (!(cs.any Char.isDigit) &&
+    !(["inf", "+inf", "-inf", "nan", "+nan", "-nan", "infinity", "+infinity", "-infinity"].map String.toList).contains cs)
+
+/-- canonical NON-NULL value of the named leaf type `nm` -/
+def leafOK (s : SchemaD) (nm : String) (v : J) : Bool :=
+  if nm == "Boolean" then (match v with | .bool _ => true | _ => false)
+  else if nm == "Int" then (match v with | .num k => decide (MIN_INT ≤ k) && decide (k ≤ MAX_INT) | _ => false)
+  else if nm == "String" then (match v with | .str _ => true | _ => false)
+  else if nm == "ID" then (match v with | .str _ => true | _ => false)
+  else if nm == "Float" then (match v with | .obj [("$float", .str r)] => floatOK r | _ => false)
+  else match s.findType nm with
+    | none => false
+    | some t =>
+      match t.kind with
+      | .scalar => (match v with | .bool _ => true | .str x => notFloatLike x | _ => false)
+      | .enum =>
+        (match v with
+         | .str x => (match t.values.find? (fun ev => jEq ev.value (.str x)) with | some ev => ev.name == x | none => false)
+         | _ => false)
+      | _ => false
+
+private theorem toInt_toString (k : Int) : (toString k).toInt? = some k := by
+  have := Int.toInt?_repr k
+  simpa using this
+
+private theorem find_mem {α} (p : α → Bool) (l : List α) (x : α) (h : l.find? p = some x) : x ∈ l ∧ p x = true := by
   induction l with
-  | nil => intro _; rfl
+  | nil => simp at h
+  | cons a as ih =>
+    simp only [List.find?_cons] at h
+    cases hp : p a with
+    | true => rw [hp] at h; simp at h; subst h; exact ⟨by simp, hp⟩
+    | false => rw [hp] at h; have := ih h; exact ⟨by simp [this.1], this.2⟩
+
+theorem leaf_roundtrip_doc (s : SchemaD) (nm : String) (v : J) (h : leafOK s nm v = true) (fuel : Nat) :
+    ∃ lit, valueLit s (fuel+1) v (.named nm) = some lit ∧ valueFromAst (docEnv s) (fuel+1) lit (.named nm) = some (some v) ∧ lit ≠ .null := by
+  unfold leafOK at h
+  by_cases h1 : (nm == "Boolean") = true
+  · have e : nm = "Boolean" := by simpa using h1
+    subst e
+    cases v <;> simp at h
+    rename_i b
+    exact ⟨.bool b, by simp [valueLit, builtinScalars, builtinLit], by simp [valueFromAst, builtinScalars, scalarLiteral, pure], by simp⟩
+  by_cases h2 : (nm == "Int") = true
+  · have e : nm = "Int" := by simpa using h2
+    subst e
+    cases v <;> simp at h
+    rename_i k
+    refine ⟨.int (toString k) (intRepr k), by simp [valueLit, builtinScalars, builtinLit], ?_, by simp⟩
+    simp [valueFromAst, builtinScalars, scalarLiteral, pure, toInt_toString, h.1, h.2]
+  by_cases h3 : (nm == "String") = true
+  · have e : nm = "String" := by simpa using h3
+    subst e
+    cases v <;> simp at h
+    rename_i x
+    exact ⟨.str x, by simp [valueLit, builtinScalars, builtinLit], by simp [valueFromAst, builtinScalars, scalarLiteral, pure], by simp⟩
+  by_cases h4 : (nm == "ID") = true
+  · have e : nm = "ID" := by simpa using h4
+    subst e
+    cases v <;> simp at h
+    rename_i x
+    by_cases hx : isIntText x = true
+    · exact ⟨.int x (x ++ ".0"), by simp [valueLit, builtinScalars, builtinLit, hx], by simp [valueFromAst, builtinScalars, scalarLiteral, pure], by simp⟩
+    · exact ⟨.str x, by simp [valueLit, builtinScalars, builtinLit, hx], by simp [valueFromAst, builtinScalars, scalarLiteral, pure], by simp⟩
+  have n1 : nm ≠ "Boolean" := by simpa using h1
+  have n2 : nm ≠ "Int" := by simpa using h2
+  have n3 : nm ≠ "String" := by simpa using h3
+  have n4 : nm ≠ "ID" := by simpa using h4
+  simp only [h1, h2, h3, h4, Bool.false_eq_true, if_false] at h
+  by_cases h5 : (nm == "Float") = true
+  · have e : nm = "Float" := by simpa using h5
+    subst e
+    simp only [h5, if_true] at h
+    split at h
+    · rename_i r
+      simp only [floatOK, Bool.and_eq_true] at h
+      obtain ⟨hfin, hc⟩ := h
+      cases hl : floatLit r with
+      | float a f =>
+        rw [hl] at hc
+        have ef : f = r := by simpa using hc
+        subst ef
+        refine ⟨.float a f, by simp [valueLit, builtinScalars, builtinLit, hl], ?_, by simp⟩
+        simp [valueFromAst, builtinScalars, scalarLiteral, pure, hfin, floatJ]
+      | int a f =>
+        rw [hl] at hc
+        have ef : f = r := by simpa using hc
+        subst ef
+        refine ⟨.int a f, by simp [valueLit, builtinScalars, builtinLit, hl], ?_, by simp⟩
+        simp [valueFromAst, builtinScalars, scalarLiteral, pure, hfin, floatJ]
+      | null => rw [hl] at hc; simp at hc
+      | str _ => rw [hl] at hc; simp at hc
+      | bool _ => rw [hl] at hc; simp at hc
+      | «enum» _ => rw [hl] at hc; simp at hc
+      | list _ => rw [hl] at hc; simp at hc
+      | obj _ => rw [hl] at hc; simp at hc
+    · simp at h
+  have n5 : nm ≠ "Float" := by simpa using h5
+  have hnb : nm ∉ builtinScalars := by simp [builtinScalars, n1, n2, n3, n4, n5]
+  simp only [h5, Bool.false_eq_true, if_false] at h
+  cases ht : s.findType nm with
+  | none => simp [ht] at h
+  | some t =>
+    simp only [ht] at h
+    have hdef : (docEnv s).findDef nm = some (typeToDef s t) := by rw [docEnv_findDef, ht]; rfl
+    have hadd := docEnv_findAdditional s nm
+    cases hk : t.kind <;> simp only [hk] at h <;> try (simp at h)
+    · -- custom scalar
+      have hdk : (typeToDef s t).kind = .scalar := hk
+      cases v <;> simp at h
+      · rename_i b
+        exact ⟨.bool b, by simp [valueLit, hnb, ht, hk, customLit],
+          by simp [valueFromAst, hnb, hadd, hdef, hdk, scalarLiteral, pure], by simp⟩
+      · rename_i x
+        by_cases hx : isIntText x = true
+        · exact ⟨.int x (x ++ ".0"), by simp [valueLit, hnb, ht, hk, customLit, hx],
+            by simp [valueFromAst, hnb, hadd, hdef, hdk, scalarLiteral, pure], by simp⟩
+        · exact ⟨.str x, by simp [valueLit, hnb, ht, hk, customLit, hx],
+            by simp [valueFromAst, hnb, hadd, hdef, hdk, scalarLiteral, pure], by simp⟩
+    · -- enum
+      have hdk : (typeToDef s t).kind = .enum := hk
+      cases v <;> simp at h
+      rename_i x
+      cases hf : t.values.find? (fun ev => jEq ev.value (.str x)) with
+      | none => simp [hf] at h
+      | some ev =>
+        simp only [hf] at h
+        have en : ev.name = x := by simpa using h
+        obtain ⟨hmem, _⟩ := find_mem _ _ _ hf
+        have hany : (typeToDef s t).values.any (·.name == x) = true := by
+          simp only [typeToDef, List.any_map, List.any_eq_true]
+          exact ⟨ev, hmem, by simp [enumValToDef, en]⟩
+        refine ⟨.enum ev.name, by simp [valueLit, hnb, ht, hk, hf], ?_, by simp⟩
+        rw [en]
+        simp [valueFromAst, hnb, hadd, hdef, hdk, pure, hany]
+
+/-! ### canonical values of every input type (leaves, wrappers, input objects) -/
+
+/-- **NoH2** (with "required fields are present"): a field may be ABSENT from an input-object value only if it has no
+    default and is nullable. A value that omits a defaulted field prints without it and is read back with it. -/
+def skippable (f : ArgD) : Bool := !f.hasDefault && !f.type.isNonNull
+
+mutual
+/-- canonical value `v` of type `ty` (what `build_schema` stores for a default of that type), fuel-indexed like the
+    printer and the builder -/
+def wtB (s : SchemaD) : Nat → J → Ty → Bool
+  | 0, _, _ => false
+  | n+1, v, .nonNull t => (match v with | .null => false | _ => true) && wtB s n v t
+  | n+1, v, .list t =>
+    match v with
+    | .null => true
+    | .arr items => wtsB s n items t
+    | _ => false
+  | n+1, v, .named nm =>
+    match v with
+    | .null => true
+    | _ =>
+      if builtinScalars.contains nm then leafOK s nm v
+      else match s.findType nm with
+        | none => false
+        | some t =>
+          if t.kind == .input then
+            (match v with
+             | .obj kvs => !hasDup (t.inputFields.map (·.name)) && wtF s n t.inputFields kvs
+             | _ => false)
+          else leafOK s nm v
+def wtsB (s : SchemaD) : Nat → List J → Ty → Bool
+  | 0, _, _ => false
+  | _+1, [], _ => true
+  | n+1, x :: xs, t => wtB s n x t && wtsB s n xs t
+/-- the keys of an input-object value are exactly the fields that are present, in the order of the type -/
+def wtF (s : SchemaD) : Nat → List ArgD → List (String × J) → Bool
+  | 0, _, _ => false
+  | _+1, [], [] => true
+  | _+1, [], _ :: _ => false
+  | n+1, f :: fs, [] => skippable f && wtF s n fs []
+  | n+1, f :: fs, (k, v) :: rest =>
+    if k == f.name then wtB s n v f.type && wtF s n fs rest
+    else skippable f && wtF s n fs ((k, v) :: rest)
+end
+
+/-! #### lookups in object literals -/
+
+theorem lookupLast_notin (L : List (String × Lit)) (g : String) (h : g ∉ L.map (·.1)) : lookupLast L g = none := by
+  simp only [lookupLast, Option.map_eq_none_iff, List.find?_eq_none, List.mem_reverse]
+  intro x hx
+  simp only [beq_iff_eq]
+  intro e
+  exact h (List.mem_map.mpr ⟨x, hx, e⟩)
+
+theorem lookupLast_cons_ne (L : List (String × Lit)) (k g : String) (l : Lit) (h : k ≠ g) :
+    lookupLast ((k, l) :: L) g = lookupLast L g := by
+  simp only [lookupLast, List.reverse_cons, List.find?_append]
+  cases hf : L.reverse.find? (fun x => x.1 == g) with
+  | some x => simp
+  | none => simp [h]
+
+theorem lookupLast_cons_self (L : List (String × Lit)) (k : String) (l : Lit) (h : k ∉ L.map (·.1)) :
+    lookupLast ((k, l) :: L) k = some l := by
+  have hn := lookupLast_notin L k h
+  simp only [lookupLast, Option.map_eq_none_iff] at hn
+  simp only [lookupLast, List.reverse_cons, List.find?_append, hn]
+  simp
+
+theorem hasDup_false_iff (l : List String) : hasDup l = false ↔ l.Nodup := by
+  induction l with
+  | nil => simp [hasDup]
   | cons x xs ih =>
-    intro h
-    rw [List.map_cons, List.mapM_cons, h x (by simp), ih (fun y hy => h y (by simp [hy]))]
-    rfl
+    simp only [hasDup, Bool.or_eq_false_iff, List.nodup_cons, ih]
+    simp
 
-theorem depr_roundtrip (r : Option String) : deprecationReason (deprDirs r) = .ok r := by
-  cases r <;> simp [deprDirs, deprecationReason, lookupLast, pure, Except.pure]
+theorem fieldsLit_skip (s : SchemaD) (k : String) (v : J) : ∀ (fs : List ArgD) (n : Nat) (kvs : List (String × J)),
+    k ∉ fs.map (·.name) → fieldsLit s n ((k, v) :: kvs) fs = fieldsLit s n kvs fs := by
+  intro fs
+  induction fs with
+  | nil => intro n kvs _; cases n <;> simp [fieldsLit]
+  | cons f fs ih =>
+    intro n kvs h
+    simp only [List.map_cons, List.mem_cons, not_or] at h
+    cases n with
+    | zero => simp [fieldsLit]
+    | succ n =>
+      have hne : (k == f.name) = false := by simpa using h.1
+      simp only [fieldsLit, ih n kvs h.2, List.find?_cons, hne]
 
-/-- a field whose arguments are plain, with no resolver attached (by-name content) and not "deprecated" with an
-    empty reason (which `Field` does not regard as a deprecation) -/
-def PlainField (env : Env) (f : FieldD) : Prop :=
-  (∀ a ∈ f.args, PlainArg env a) ∧ env.resolves f.type.base = true ∧ f.resolver = none ∧ f.deprecated ≠ some ""
+theorem coerceDefFields_skip (env : Env) (k : String) (l : Lit) : ∀ (ds : List InputValDef) (n : Nat) (L : List (String × Lit)),
+    k ∉ ds.map (·.name) → coerceDefFields env n ((k, l) :: L) ds = coerceDefFields env n L ds := by
+  intro ds
+  induction ds with
+  | nil => intro n L _; cases n <;> simp [coerceDefFields]
+  | cons d ds ih =>
+    intro n L h
+    simp only [List.map_cons, List.mem_cons, not_or] at h
+    cases n with
+    | zero => simp [coerceDefFields]
+    | succ n =>
+      simp only [coerceDefFields, ih n L h.2, lookupLast_cons_ne L k d.name l h.1]
 
-theorem field_to_doc_build (s : SchemaD) (env : Env) (f : FieldD) (h : PlainField env f) : buildField env (fieldToDef s f) = .ok f := by
-  obtain ⟨h1, h2, h3, h4⟩ := h
-  have hargs := mapM_to_doc (argToDef s) (buildArgument env) f.args (fun a ha => arg_to_doc_build s env a (h1 a ha))
-  cases f with
-  | mk name type args deprecated desc resolver =>
-    simp only [] at h2 h3 h4 hargs
-    subst h3
-    have hd : fieldDeprecation deprecated = deprecated := by
-      cases deprecated with
-      | none => rfl
-      | some x =>
-        unfold fieldDeprecation
-        split
-        · rename_i heq; cases heq; exact absurd rfl h4
-        · rfl
-    simp [buildField, fieldToDef, checkRef, h2, hargs, depr_roundtrip, hd, bind, Except.bind, pure, Except.pure]
+theorem wtF_keys (s : SchemaD) : ∀ (n : Nat) (fs : List ArgD) (kvs : List (String × J)), wtF s n fs kvs = true →
+    ∀ k ∈ kvs.map (·.1), k ∈ fs.map (·.name) := by
+  intro n
+  induction n with
+  | zero => intro fs kvs h; simp [wtF] at h
+  | succ n ih =>
+    intro fs kvs h k hk
+    cases fs with
+    | nil => cases kvs with
+      | nil => simp at hk
+      | cons _ _ => simp [wtF] at h
+    | cons f fs =>
+      cases kvs with
+      | nil => simp at hk
+      | cons kv rest =>
+        obtain ⟨k0, v0⟩ := kv
+        simp only [wtF] at h
+        by_cases hm : (k0 == f.name) = true
+        · simp only [hm, if_true, Bool.and_eq_true] at h
+          have e : k0 = f.name := by simpa using hm
+          simp only [List.map_cons, List.mem_cons] at hk ⊢
+          rcases hk with rfl | hk
+          · exact Or.inl e
+          · exact Or.inr (ih fs rest h.2 k hk)
+        · simp only [hm, Bool.false_eq_true, if_false, Bool.and_eq_true] at h
+          simp only [List.map_cons, List.mem_cons]
+          exact Or.inr (ih fs ((k0, v0) :: rest) h.2 k hk)
 
-theorem enum_value_to_doc_build (v : EnumValD) (hv : v.value = .str v.name) (hn : reservedEnumNames.contains v.name = false) :
-    buildEnumValue (enumValToDef v) = .ok v := by
-  cases v
-  simp only [] at hv hn
-  subst hv
-  have hn' := hn
-  simp only [List.contains_eq_mem, decide_eq_false_iff_not] at hn'
-  simp [buildEnumValue, enumValToDef, failIf, hn', depr_roundtrip, bind, Except.bind, pure, Except.pure]
+private theorem find_none_notin (kvs : List (String × J)) (g : String) (h : g ∉ kvs.map (·.1)) :
+    kvs.find? (fun x => x.1 == g) = none := by
+  rw [List.find?_eq_none]
+  intro x hx
+  simp only [beq_iff_eq]
+  intro e
+  exact h (List.mem_map.mpr ⟨x, hx, e⟩)
 
-/-- a type whose members are plain, carrying nothing but by-name content, with only the member lists of its kind -/
-structure PlainType (env : Env) (t : TypeD) : Prop where
-  fields : ∀ f ∈ t.fields, PlainField env f
-  inputFields : ∀ a ∈ t.inputFields, PlainArg env a
-  values : ∀ v ∈ t.values, v.value = .str v.name ∧ reservedEnumNames.contains v.name = false
-  valuesUnique : hasDup (t.values.map (·.name)) = false
-  interfaces : t.interfaces.all env.resolves = true
-  members : t.members.all env.resolves = true
-  noResolver : t.defaultResolver = none
-  notBuiltin : t.builtin = false
-  shape : match t.kind with
-    | .scalar => t.interfaces = [] ∧ t.fields = [] ∧ t.members = [] ∧ t.values = [] ∧ t.inputFields = []
-    | .object => t.members = [] ∧ t.values = [] ∧ t.inputFields = []
-    | .interface => t.interfaces = [] ∧ t.members = [] ∧ t.values = [] ∧ t.inputFields = []
-    | .union => t.interfaces = [] ∧ t.fields = [] ∧ t.values = [] ∧ t.inputFields = []
-    | .enum => t.interfaces = [] ∧ t.fields = [] ∧ t.members = [] ∧ t.inputFields = []
-    | .input => t.interfaces = [] ∧ t.fields = [] ∧ t.members = [] ∧ t.values = []
+private def nonNullV (v : J) : Bool := match v with | .null => false | _ => true
 
-/-- **to_doc_build**, type level: building the definition the printer writes for a type gives the type back
-    (all six kinds; members without default values — defaults are `default_roundtrip`). -/
-theorem type_to_doc_build (s : SchemaD) (env : Env) (t : TypeD) (h : PlainType env t) : buildTypeDef env (typeToDef s t) = .ok t := by
-  have hf := mapM_to_doc (fieldToDef s) (buildField env) t.fields (fun f hf => field_to_doc_build s env f (h.fields f hf))
-  have hi := mapM_to_doc (argToDef s) (buildArgument env) t.inputFields (fun a ha => arg_to_doc_build s env a (h.inputFields a ha))
-  have hv := mapM_to_doc enumValToDef buildEnumValue t.values (fun v hv => enum_value_to_doc_build v (h.values v hv).1 (h.values v hv).2)
-  have hci : checkNames env t.interfaces = .ok () := (checkNames_ok_iff env _).mpr h.interfaces
-  have hcm : checkNames env t.members = .ok () := (checkNames_ok_iff env _).mpr h.members
-  have hdup : hasDup ((t.values.map enumValToDef).map (·.name)) = false := by
-    rw [List.map_map]; exact h.valuesUnique
-  have hs := h.shape
-  have h1 := h.noResolver
-  have h2 := h.notBuiltin
-  cases t with
-  | mk kind name desc interfaces fields members values inputFields defaultResolver builtin =>
-    simp only [] at hf hi hv hci hcm hdup hs h1 h2
-    subst h1 h2
-    cases kind <;> simp only [] at hs <;>
-      simp_all [buildTypeDef, typeToDef, failIf, bind, Except.bind, pure, Except.pure]
+/-- the joint statement for values, item lists and field lists (one induction on the fuel) -/
+private def RT (s : SchemaD) (n : Nat) : Prop :=
+  (∀ v ty, wtB s n v ty = true → ∃ lit, valueLit s n v ty = some lit ∧ valueFromAst (docEnv s) n lit ty = some (some v) ∧
+      (nonNullV v = true → lit ≠ .null)) ∧
+  (∀ items t, wtsB s n items t = true → ∃ lits, itemsLit s n items t = some lits ∧ coerceItems (docEnv s) n lits t = some (some items)) ∧
+  (∀ fs kvs, (fs.map (·.name)).Nodup → wtF s n fs kvs = true → ∃ L, fieldsLit s n kvs fs = some L ∧
+      coerceDefFields (docEnv s) n L (fs.map (argToDef s)) = some (some (.obj kvs)) ∧ L.map (·.1) = kvs.map (·.1))
+
+private theorem rt_values (s : SchemaD) (n : Nat) (ih : RT s n) :
+    ∀ v ty, wtB s (n+1) v ty = true → ∃ lit, valueLit s (n+1) v ty = some lit ∧ valueFromAst (docEnv s) (n+1) lit ty = some (some v) ∧
+      (nonNullV v = true → lit ≠ .null) := by
+  obtain ⟨ihv, ihs, ihf⟩ := ih
+  intro v ty h
+  cases ty with
+  | nonNull t =>
+    simp only [wtB, Bool.and_eq_true] at h
+    obtain ⟨hv, hw⟩ := h
+    obtain ⟨lit, h1, h2, h3⟩ := ihv v t hw
+    have hl := h3 hv
+    refine ⟨lit, ?_, ?_, fun _ => hl⟩
+    · simp only [valueLit, h1]
+      cases lit <;> simp_all
+    · cases lit <;> simp_all [valueFromAst]
+  | list t =>
+    simp only [wtB] at h
+    cases v with
+    | null => exact ⟨.null, by simp [valueLit], by simp [valueFromAst, pure], by simp [nonNullV]⟩
+    | arr items =>
+      simp only [] at h
+      obtain ⟨lits, h1, h2⟩ := ihs items t h
+      exact ⟨.list lits, by simp [valueLit, h1], by simp [valueFromAst, h2, bind, Option.bind, pure], by simp⟩
+    | bool _ => simp at h
+    | num _ => simp at h
+    | str _ => simp at h
+    | obj _ => simp at h
+  | named nm =>
+    cases v with
+    | null => exact ⟨.null, by simp [valueLit], by simp [valueFromAst, pure], by simp [nonNullV]⟩
+    | bool b =>
+      simp only [wtB] at h
+      by_cases hb : builtinScalars.contains nm = true
+      · simp only [hb, if_true] at h
+        obtain ⟨lit, a, b', c⟩ := leaf_roundtrip_doc s nm _ h n
+        exact ⟨lit, a, b', fun _ => c⟩
+      · simp only [hb, Bool.false_eq_true, if_false] at h
+        cases ht : s.findType nm with
+        | none => simp [ht] at h
+        | some t =>
+          simp only [ht] at h
+          by_cases hk : (t.kind == .input) = true
+          · simp [hk] at h
+          · simp only [hk, Bool.false_eq_true, if_false] at h
+            obtain ⟨lit, a, b', c⟩ := leaf_roundtrip_doc s nm _ h n
+            exact ⟨lit, a, b', fun _ => c⟩
+    | num k =>
+      simp only [wtB] at h
+      by_cases hb : builtinScalars.contains nm = true
+      · simp only [hb, if_true] at h
+        obtain ⟨lit, a, b', c⟩ := leaf_roundtrip_doc s nm _ h n
+        exact ⟨lit, a, b', fun _ => c⟩
+      · simp only [hb, Bool.false_eq_true, if_false] at h
+        cases ht : s.findType nm with
+        | none => simp [ht] at h
+        | some t =>
+          simp only [ht] at h
+          by_cases hk : (t.kind == .input) = true
+          · simp [hk] at h
+          · simp only [hk, Bool.false_eq_true, if_false] at h
+            obtain ⟨lit, a, b', c⟩ := leaf_roundtrip_doc s nm _ h n
+            exact ⟨lit, a, b', fun _ => c⟩
+    | str x =>
+      simp only [wtB] at h
+      by_cases hb : builtinScalars.contains nm = true
+      · simp only [hb, if_true] at h
+        obtain ⟨lit, a, b', c⟩ := leaf_roundtrip_doc s nm _ h n
+        exact ⟨lit, a, b', fun _ => c⟩
+      · simp only [hb, Bool.false_eq_true, if_false] at h
+        cases ht : s.findType nm with
+        | none => simp [ht] at h
+        | some t =>
+          simp only [ht] at h
+          by_cases hk : (t.kind == .input) = true
+          · simp [hk] at h
+          · simp only [hk, Bool.false_eq_true, if_false] at h
+            obtain ⟨lit, a, b', c⟩ := leaf_roundtrip_doc s nm _ h n
+            exact ⟨lit, a, b', fun _ => c⟩
+    | arr xs =>
+      simp only [wtB] at h
+      by_cases hb : builtinScalars.contains nm = true
+      · simp only [hb, if_true] at h
+        obtain ⟨lit, a, b', c⟩ := leaf_roundtrip_doc s nm _ h n
+        exact ⟨lit, a, b', fun _ => c⟩
+      · simp only [hb, Bool.false_eq_true, if_false] at h
+        cases ht : s.findType nm with
+        | none => simp [ht] at h
+        | some t =>
+          simp only [ht] at h
+          by_cases hk : (t.kind == .input) = true
+          · simp [hk] at h
+          · simp only [hk, Bool.false_eq_true, if_false] at h
+            obtain ⟨lit, a, b', c⟩ := leaf_roundtrip_doc s nm _ h n
+            exact ⟨lit, a, b', fun _ => c⟩
+    | obj kvs =>
+      simp only [wtB] at h
+      by_cases hb : builtinScalars.contains nm = true
+      · simp only [hb, if_true] at h
+        obtain ⟨lit, a, b', c⟩ := leaf_roundtrip_doc s nm _ h n
+        exact ⟨lit, a, b', fun _ => c⟩
+      · simp only [hb, Bool.false_eq_true, if_false] at h
+        have hnb : nm ∉ builtinScalars := by simpa using hb
+        cases ht : s.findType nm with
+        | none => simp [ht] at h
+        | some t =>
+          simp only [ht] at h
+          by_cases hk : (t.kind == .input) = true
+          · -- an input object
+            have hk' : t.kind = .input := by simpa using hk
+            simp only [hk, if_true, Bool.and_eq_true, Bool.not_eq_true'] at h
+            obtain ⟨hnd, hwf⟩ := h
+            have hnod := (hasDup_false_iff _).mp hnd
+            obtain ⟨L, hL1, hL2, hL3⟩ := ihf t.inputFields kvs hnod hwf
+            have hdef : (docEnv s).findDef nm = some (typeToDef s t) := by rw [docEnv_findDef, ht]; rfl
+            have hadd := docEnv_findAdditional s nm
+            have hdk : (typeToDef s t).kind = .input := hk'
+            have hall : allDefined L ((typeToDef s t).inputFields.map (·.name)) = true := by
+              simp only [allDefined, List.all_eq_true]
+              intro g hg
+              have hgk : g.1 ∈ kvs.map (·.1) := by rw [← hL3]; exact List.mem_map_of_mem hg
+              have := wtF_keys s n t.inputFields kvs hwf g.1 hgk
+              simpa [typeToDef, argToDef, List.map_map, Function.comp] using this
+            refine ⟨.obj L, by simp [valueLit, hnb, ht, hk', hL1], ?_, by simp⟩
+            have hL2' : coerceDefFields (docEnv s) n L (typeToDef s t).inputFields = some (some (.obj kvs)) := hL2
+            simp [valueFromAst, hnb, hadd, hdef, hdk, hL2', hall, bind, Option.bind, pure]
+          · simp only [hk, Bool.false_eq_true, if_false] at h
+            obtain ⟨lit, a, b', c⟩ := leaf_roundtrip_doc s nm _ h n
+            exact ⟨lit, a, b', fun _ => c⟩
+
+private theorem rt_items (s : SchemaD) (n : Nat) (ih : RT s n) :
+    ∀ items t, wtsB s (n+1) items t = true → ∃ lits, itemsLit s (n+1) items t = some lits ∧
+      coerceItems (docEnv s) (n+1) lits t = some (some items) := by
+  obtain ⟨ihv, ihs, _⟩ := ih
+  intro items t h
+  cases items with
+  | nil => exact ⟨[], by simp [itemsLit], by simp [coerceItems, pure]⟩
+  | cons x xs =>
+    simp only [wtsB, Bool.and_eq_true] at h
+    obtain ⟨lit, h1, h2, _⟩ := ihv x t h.1
+    obtain ⟨lits, h3, h4⟩ := ihs xs t h.2
+    exact ⟨lit :: lits, by simp [itemsLit, h1, h3], by simp [coerceItems, h2, h4, bind, Option.bind, pure]⟩
+
+private theorem rt_fields (s : SchemaD) (n : Nat) (ih : RT s n) :
+    ∀ fs kvs, (fs.map (·.name)).Nodup → wtF s (n+1) fs kvs = true → ∃ L, fieldsLit s (n+1) kvs fs = some L ∧
+      coerceDefFields (docEnv s) (n+1) L (fs.map (argToDef s)) = some (some (.obj kvs)) ∧ L.map (·.1) = kvs.map (·.1) := by
+  obtain ⟨ihv, _, ihf⟩ := ih
+  intro fs kvs hnd h
+  cases fs with
+  | nil =>
+    cases kvs with
+    | nil => exact ⟨[], by simp [fieldsLit], by simp [coerceDefFields, pure], rfl⟩
+    | cons _ _ => simp [wtF] at h
+  | cons f fs =>
+    simp only [List.map_cons, List.nodup_cons] at hnd
+    obtain ⟨hfn, hnd'⟩ := hnd
+    have hdn : (argToDef s f).name = f.name := rfl
+    have hdt : (argToDef s f).type = f.type := rfl
+    have hnames : (fs.map (argToDef s)).map (·.name) = fs.map (·.name) := by simp [List.map_map, Function.comp, argToDef]
+    cases kvs with
+    | nil =>
+      simp only [wtF, Bool.and_eq_true] at h
+      obtain ⟨hsk, hw⟩ := h
+      obtain ⟨L0, a, b, c⟩ := ihf fs [] hnd' hw
+      have hL0 : L0 = [] := by simpa using c
+      subst hL0
+      simp only [skippable, Bool.and_eq_true, Bool.not_eq_true'] at hsk
+      have hdd : (argToDef s f).default = none := by simp [argToDef, hsk.1]
+      refine ⟨[], ?_, ?_, rfl⟩
+      · simp [fieldsLit, a, hsk.1, hsk.2]
+      · simp [coerceDefFields, b, lookupLast, hdd, hdt, hsk.2, bind, Option.bind, pure]
+    | cons kv rest =>
+      obtain ⟨k, v⟩ := kv
+      simp only [wtF] at h
+      by_cases hm : (k == f.name) = true
+      · -- the field is present
+        have e : k = f.name := by simpa using hm
+        subst e
+        simp only [hm, if_true, Bool.and_eq_true] at h
+        obtain ⟨hwv, hwr⟩ := h
+        obtain ⟨lit, hl1, hl2, _⟩ := ihv v f.type hwv
+        obtain ⟨L0, a, b, c⟩ := ihf fs rest hnd' hwr
+        have hkL0 : f.name ∉ L0.map (·.1) := by
+          rw [c]; intro hin; exact hfn (wtF_keys s n fs rest hwr _ hin)
+        refine ⟨(f.name, lit) :: L0, ?_, ?_, by simp [c]⟩
+        · simp [fieldsLit, fieldsLit_skip s f.name v fs n rest hfn, a, hl1]
+        · have hskip := coerceDefFields_skip (docEnv s) f.name lit (fs.map (argToDef s)) n L0 (by rw [hnames]; exact hfn)
+          simp [coerceDefFields, hskip, b, hdn, hdt, lookupLast_cons_self L0 f.name lit hkL0, hl2, bind, Option.bind, pure]
+      · -- the field is absent
+        simp only [hm, Bool.false_eq_true, if_false, Bool.and_eq_true] at h
+        obtain ⟨hsk, hw⟩ := h
+        obtain ⟨L0, a, b, c⟩ := ihf fs ((k, v) :: rest) hnd' hw
+        simp only [skippable, Bool.and_eq_true, Bool.not_eq_true'] at hsk
+        have hdd : (argToDef s f).default = none := by simp [argToDef, hsk.1]
+        have hkeys : f.name ∉ ((k, v) :: rest).map (·.1) := fun hin => hfn (wtF_keys s n fs _ hw _ hin)
+        have hkL0 : f.name ∉ L0.map (·.1) := by rw [c]; exact hkeys
+        refine ⟨L0, ?_, ?_, c⟩
+        · simp [fieldsLit, a, find_none_notin _ _ hkeys, hsk.1, hsk.2]
+        · simp [coerceDefFields, b, hdn, hdt, lookupLast_notin L0 f.name hkL0, hdd, hsk.2, bind, Option.bind, pure]
+
+private theorem rt_all (s : SchemaD) : ∀ n, RT s n := by
+  intro n
+  induction n with
+  | zero => exact ⟨fun v ty h => by simp [wtB] at h, fun items t h => by simp [wtsB] at h, fun fs kvs _ h => by simp [wtF] at h⟩
+  | succ n ih => exact ⟨rt_values s n ih, rt_items s n ih, rt_fields s n ih⟩
+
+/-- **default_roundtrip** (all input types): for every canonical value `v` of ANY input type — the specified and
+    custom scalars, enums, input objects (nested, recursive), `null`, non-null and list wrappers of any depth — the
+    literal the schema printer writes for `v` is read back by the builder, over the printed document, as `v` itself.
+    Excluded, each by a named predicate inside `wtB`: input-object values that omit a defaulted field (`skippable`,
+    finding H2 — refuted below), non-canonical floats (`floatOK`, H8), float-looking custom-scalar strings
+    (`notFloatLike`, H3). -/
+theorem default_roundtrip_doc (s : SchemaD) (n : Nat) (v : J) (ty : Ty) (h : wtB s n v ty = true) :
+    ∃ lit, valueLit s n v ty = some lit ∧ valueFromAst (docEnv s) n lit ty = some (some v) :=
+  let ⟨lit, h1, h2, _⟩ := (rt_all s n).1 v ty h
+  ⟨lit, h1, h2⟩
 
 end PyGql.Props.C12
